@@ -25,7 +25,7 @@ for sid in ids:
         res = {"applies": False, "note": a.stderr.strip()[:200]}
     else:
         p = subprocess.run(f"cd /verif && VERIF_REPO={wt} timeout 2400 ./check {prop} --tier quick", shell=True, capture_output=True, text=True)
-        keys = re.findall(r"^VIOLATION property=\S+ replay=/verif/replay/(\S+)\.json", p.stdout, re.M)
+        keys = re.findall(r"^VIOLATION property=\S+ replay=/verif/replay[-a-z]*/(\S+)\.json", p.stdout, re.M)
         last = p.stdout.strip().splitlines()[-1] if p.stdout.strip() else ""
         res = {"applies": True, "exit": p.returncode, "detected": p.returncode == 1 and bool(keys), "violation_keys": keys[:4], "summary": last[:200], "repo_head": head}
     subprocess.run(f"git -C /repo worktree remove --force {wt}", shell=True, capture_output=True)
